@@ -362,3 +362,42 @@ func VP_C08_BorrowAlternateOpensTheLendLikeMsgLend() {
 		zzvp.SpyArgZ(vpLK+"BorrowAsset", 0, 6).Equal(zzvp.ZI(msg.AmountIn.Amount)), zzvp.SpyArgZ(vpLK+"BorrowAsset", 0, 7).Equal(zzvp.ZI(msg.AmountOut.Amount))),
 		"borrow-half-gets-the-new-position-the-pair-the-receipt-amount-and-the-requested-loan")
 }
+
+// CloseBorrow: the published borrowed total of the borrow's kind (variable / stable) falls by exactly the closed
+// principal and the other one is untouched - also when the close books accrued interest on the same statistics record -,
+// the published total lent is untouched, the pledged collateral becomes available to borrow again on the lend position,
+// and the borrow is gone.
+func VP_C08_CloseBorrow() {
+	k, ctx := vpLendWorldWith("UpdateReserveAmtFromRepayments", "UpdateReserveBalances")
+	msg := types.MsgCloseBorrow{Borrower: zzvp.AnyString(), BorrowId: zzvp.AnyUint64()}
+	zzvp.Assume(msg.ValidateBasic() == nil)
+	b, _ := k.GetBorrow(ctx, msg.BorrowId)
+	zzvp.Assume(b.ID == msg.BorrowId)
+	zzvp.Assume(!b.InterestAccumulated.IsNegative() && !b.AmountOut.Amount.IsNegative() && !b.AmountIn.Amount.IsNegative())
+	pair, _ := k.GetLendPair(ctx, b.PairID)
+	stats0, _ := k.GetAssetStatsByPoolIDAndAssetID(ctx, pair.AssetOutPoolID, pair.AssetOut)
+	zzvp.Assume(stats0.PoolID == pair.AssetOutPoolID && stats0.AssetID == pair.AssetOut)
+	l0, _ := k.GetLend(ctx, b.LendingID)
+	zzvp.Assume(l0.ID == b.LendingID)
+	tr, _ := k.GetBorrowInterestTracker(ctx, msg.BorrowId)
+	zzvp.Assume(!tr.ReservePoolInterest.IsNegative() && tr.ReservePoolInterest.LTE(b.InterestAccumulated))
+	_, err := NewMsgServerImpl(k).CloseBorrow(sdk.WrapSDKContext(ctx), &msg)
+	if err != nil {
+		return
+	}
+	zzvp.Reach("close-borrow-succeeded")
+	if b.InterestAccumulated.Sub(tr.ReservePoolInterest).TruncateInt().IsPositive() {
+		zzvp.Reach("close-books-accrued-interest")
+	}
+	stats1, _ := k.GetAssetStatsByPoolIDAndAssetID(ctx, pair.AssetOutPoolID, pair.AssetOut)
+	if b.IsStableBorrow {
+		zzvp.Assert(stats1.TotalStableBorrowed.Sub(stats0.TotalStableBorrowed).Equal(b.AmountOut.Amount.Neg()) && stats1.TotalBorrowed.Equal(stats0.TotalBorrowed), "published-stable-borrowed-falls-by-the-closed-principal")
+	} else {
+		zzvp.Assert(stats1.TotalBorrowed.Sub(stats0.TotalBorrowed).Equal(b.AmountOut.Amount.Neg()) && stats1.TotalStableBorrowed.Equal(stats0.TotalStableBorrowed), "published-borrowed-falls-by-the-closed-principal")
+	}
+	zzvp.Assert(stats1.TotalLend.Equal(stats0.TotalLend), "published-lent-untouched-by-a-close")
+	_, still := k.GetBorrow(ctx, msg.BorrowId)
+	zzvp.Assert(!still, "closed-borrow-is-removed")
+	l1, _ := k.GetLend(ctx, b.LendingID)
+	zzvp.Assert(l1.AvailableToBorrow.Sub(l0.AvailableToBorrow).Equal(b.AmountIn.Amount), "pledged-collateral-becomes-available-again")
+}
